@@ -685,8 +685,13 @@ def copies(ctx, uberjob, rng, plan, reg, nodes, replay0, MemStore, RegistryValue
                     pool.append(p.gather([rng.choice(pool), {"k": rng.choice(pool)}]))
                 else:
                     pool.extend(p.unpack(rng.choice(pool), rng.randint(0, 2)))
-    # Plan.copy
-    cp = plan.copy()
+    # Plan.copy - called directly or through the standard copy protocol (Plan.__copy__ and Registry.__copy__ ARE the copy methods)
+    import copy as _copy
+    via_protocol = replay0["index"] % 3 == 2
+    mkcopy = _copy.copy if via_protocol else (lambda x: x.copy())
+    replay0 = dict(replay0, copied_with="copy.copy(x)" if via_protocol else "x.copy()")
+    ctx.count("copies_made_with", replay0["copied_with"])
+    cp = mkcopy(plan)
     ctx.compared("Alias.v copy_plan_cmds: new graph object, shared node objects")
     if cp.graph is plan.graph or [id(n) for n in cp.graph.nodes()] != [id(n) for n in plan.graph.nodes()] or cp._scope != ():
         ctx.broke("correspondence Obs/Alias.v copy_plan_cmds vs Plan.copy", {"same_graph": cp.graph is plan.graph})
@@ -697,7 +702,7 @@ def copies(ctx, uberjob, rng, plan, reg, nodes, replay0, MemStore, RegistryValue
         ctx.fail("copy:plan:copy-mutated", "building on Plan.copy() changed the original: %s" % d, dict(replay0, diff=d))
     b_copy = snap_plan(cp)
     scratch = plan.copy()            # keep the caller's plan intact for later cases: mutate a second copy as 'original'
-    b_scratch_copy = scratch.copy()
+    b_scratch_copy = mkcopy(scratch)
     snap_c = snap_plan(b_scratch_copy)
     mutate_plan(scratch, list(nodes))
     d = diff(snap_c, snap_plan(b_scratch_copy))
@@ -705,7 +710,7 @@ def copies(ctx, uberjob, rng, plan, reg, nodes, replay0, MemStore, RegistryValue
         ctx.fail("copy:plan:original-mutated", "building on the original changed its earlier copy: %s" % d, dict(replay0, diff=d))
     ctx.case(("copy-plan", replay0["index"]), nontrivial=True)
     # Registry.copy
-    rc = reg.copy()
+    rc = mkcopy(reg)
     ctx.compared("Alias.v copy_registry_cmds: new mapping, one new RegistryValue per entry, shared stores")
     for n, rv in reg.mapping.items():
         c = rc.mapping.get(n)
